@@ -131,6 +131,11 @@ def grammar(rng, nps):
              np.array([N3, [0, 0, 0]], dtype=object), np.array([[0, 0, 0], [1, 2, 3]], dtype=object), np.array([1, None, 3], dtype=object),
              np.array([1, 2, 3], dtype=object), np.array(["1", "2", "3"]), np.array([b"1", b"2", b"3"]), np.array([1 + 0j, 2, 3]),
              np.array([1, 2, 3], dtype="datetime64[s]"), [1, b"2", 3], ["1", "2", "3"]]
+    # values a hair beyond / exactly on the documented bounds (no tolerance is documented): an angular range of 360 + 3e-3, + 1e-9 and
+    # exactly 360 degrees, equal radii up to the last bit, a height of the smallest positive number
+    vals += [[0.5, 1.0, 1.0, 0, 360.003], [0.5, 1.0, 1.0, 0, 360.0000001], [0.5, 1.0, 1.0, 10, 370.0000000001], [0.5, 1.0, 1.0, 0, 360.0], [0.5, 1.0, 1.0, -180.0015, 180.0015],
+             [1.0, np.nextafter(1.0, 2), 1.0, 0, 90], [np.nextafter(1.0, 2), 1.0, 1.0, 0, 90], [0.5, 1.0, 5e-324, 0, 90], [0.5, 1.0, 1.0, 90, np.nextafter(90.0, 0)],
+             [0.5, 1.0, 1.0, 0.0, 5e-324], [1.0, -5e-324], [5e-324, 1.0], [1.0, 1.0, -5e-324], [-5e-324, 1.0, 1.0]]
     rng.shuffle(vals)
     return vals
 
